@@ -1,5 +1,6 @@
 import SaoVerif.Model.Blocks
 import SaoVerif.Model.Staking
+import SaoVerif.Model.DidM
 /-! The operation alphabet and `step`. -/
 namespace SaoVerif
 
@@ -28,6 +29,9 @@ inductive Op where
   | renew (creator msgProvider : Addr) (sigValid : Bool) (sigDid : Did) (duration : Nat) (timeout : Int) (data : List Bytes)
   | migrate (creator msgProvider : Addr) (data : List Bytes)
   | perm (creator msgProvider : Addr) (owner : Did) (dataId : Bytes) (ro rw : List Did) (sigValid : Bool)
+  | payaddr (m : PayAddrMsg)
+  | binding (m : BindingMsg)
+  | didupdate (m : DidUpdateMsg)
   | delegate (creator : Addr) (val : ValAddr) (amount : Int)
   | undelegate (creator : Addr) (val : ValAddr) (amount : Int)
   | restart
@@ -70,6 +74,9 @@ def stepC (e : Env) (s : State) : Op → Res × State
   | .renew c p sv sd du t data => atomic s ((saoRenew e s c p sv sd du t data).map (·.1))
   | .migrate c p data => atomic s (saoMigrate s c p data)
   | .perm c p ow d ro rw sv => atomic s (saoPermission s c p ow d ro rw sv)
+  | .payaddr m => atomic s (didUpdatePaymentAddress s m)
+  | .binding m => atomic s (didBinding s m)
+  | .didupdate m => atomic s (didUpdate s m)
   | .delegate _ _ _ => (.ok, s)
   | .undelegate _ _ _ => (.ok, s)
   | .restart => (.ok, s)
